@@ -1,5 +1,4 @@
 """Default resources for worlds."""
-import copy
 import json
 import functools
 import importlib
@@ -146,7 +145,7 @@ class WorldFromFileTransformer:
         """Apply all transformers on the given world with given data."""
         for transformer in self.dict_transformers:
             passthrough_dict = data_dict
-            initial_dict = copy.deepcopy(passthrough_dict)
+            initial_dict = _copy_containers(passthrough_dict)
 
             try:
                 # Only the passthrough dict is supposed to be modifiable
@@ -159,6 +158,23 @@ class WorldFromFileTransformer:
                     f"\non dictionary: {data_dict}\n"
                     f"with dict transformer: {transformer}\n"
                     + str(ex))
+
+
+def _copy_containers(value):
+    """Copy nested dictionaries and lists, share everything else.
+
+    Enough to hand each dict transformer a snapshot of the dictionary
+    as it was before its own changes. Objects that were already
+    resolved by previous transformers (types, modules, resources) are
+    shared: they are not to be duplicated and may not support copying.
+    """
+    if type(value) is dict:
+        return {key: _copy_containers(item) for key, item in value.items()}
+
+    if type(value) is list:
+        return [_copy_containers(item) for item in value]
+
+    return value
 
 
 def default_processors_transformer(world_handle: WorldHandle, world: World):
